@@ -53,6 +53,36 @@ def alias_rule(ctx: Ctx, src_cls: str, dst_cls: str) -> None:
     ctx.floor(f"aliased properties of {src_cls}", n, 1)
 
 
+def _not_fresh(ctx: Ctx, fi: FunctionInfo, e: ast.expr, depth: int = 3) -> Optional[str]:
+    """None when *e* certainly evaluates to an object nobody else holds; otherwise the reason."""
+    if isinstance(e, ast.Call):
+        if isinstance(e.func, ast.Attribute) and e.func.attr == "blank" and not e.args:
+            return None
+        nm = callee_name(ctx, fi, e)
+        if nm.endswith("copy.deepcopy") or (isinstance(e.func, ast.Name) and e.func.id == "deepcopy"):
+            return None
+        g = callee(ctx, fi, e)
+        if isinstance(g, ClassInfo):
+            return None
+        if isinstance(g, FunctionInfo) and depth > 0:
+            rets = [r for r in body_walk(g.node) if isinstance(r, ast.Return)]
+            if not rets:
+                return f"{g.qualname}() returns nothing"
+            for r in rets:
+                if r.value is None:
+                    return f"{g.qualname}() may return None"
+                w = _not_fresh(ctx, g, inline(r.value, g), depth - 1)
+                if w is not None:
+                    return f"{g.qualname}() returns {src(r.value, 60)}: {w}"
+            return None
+        if nm.endswith("copy.copy") or (isinstance(e.func, ast.Name) and e.func.id == "copy"):
+            return "a shallow copy shares its mutable parts (the chart list, nested values) with the object it was copied from"
+        return f"{src(e, 60)} is not known to create a new object"
+    if isinstance(e, ast.Subscript):
+        return f"{src(e, 60)} is an object kept in a table: every caller gets (and changes) the same one"
+    return f"{src(e, 60)} is not a newly created object"
+
+
 def purity(ctx: Ctx) -> None:
     """R-PURE: the converter writes only to objects it created; parameters are never mutated or stored into the result."""
     p = ctx.p
@@ -64,6 +94,13 @@ def purity(ctx: Ctx) -> None:
         for b in bs:
             if b.kind == "assign" and match("deepcopy($t) or $c.blank()", b.value) is not None:
                 fresh[name] = b.value
+            elif b.kind == "assign" and match("deepcopy($t) or $x", b.value) is not None:
+                why = _not_fresh(ctx, cv, match("deepcopy($t) or $x", b.value)["x"])
+                if why is None:
+                    fresh[name] = b.value
+                else:
+                    fresh[name] = b.value
+                    ctx.bad("R-PURE", cv, f"{name} is a deep copy of the caller's template or a fresh blank()", f"{name} = {src(b.value)}: {why}", node=b.value)
             elif b.kind == "assign" and match("$t or $c.blank()", b.value) is not None:
                 ctx.bad("R-PURE", cv, f"{name} is a deep copy of the caller's template or a fresh blank()", f"{name} = {src(b.value)}: the caller's template object itself is written to "
                         "(and shared between results)", node=b.value)
@@ -72,8 +109,14 @@ def purity(ctx: Ctx) -> None:
             if name not in fresh and len(bs) == 1 and bs[0].kind == "assign" and isinstance(bs[0].value, ast.Name) and bs[0].value.id in fresh:
                 fresh[name] = fresh[bs[0].value.id]
     ctx.floor("fresh result objects in _convert", len(fresh), 2)
+    if any(match("deepcopy($t) or $c.blank()", v) is None for v in fresh.values()):
+        if any(i.rule == "R-PURE" and i.verdict == "violation" for i in ctx.instances):
+            return  # already reported: a result object that is not newly created
+        raise AnalysisError(f"{cv.fq}: a result object is created in a way that is not 'deepcopy(template) or <type>.blank()'")
     for name, v in fresh.items():
         m = match("deepcopy($t) or $c.blank()", v)
+        if m is None:
+            continue  # judged above (the second operand is not a plain blank())
         t, c = m["t"], m["c"]
         okt = isinstance(t, ast.Name) and t.id in cv.param_names() and t.id.endswith("template") and loc.only_param(t.id)
         okc = isinstance(c, ast.Name) and c.id in cv.param_names() and c.id.endswith("type")
@@ -83,6 +126,8 @@ def purity(ctx: Ctx) -> None:
     # template/type agreement: simfile template with simfile type, chart with chart
     for name, v in fresh.items():
         m = match("deepcopy($t) or $c.blank()", v)
+        if m is None:
+            continue
         kind_t = "simfile" if "simfile" in ast.unparse(m["t"]) else "chart"
         kind_c = "simfile" if "simfile" in ast.unparse(m["c"]) else "chart"
         ctx.expect("R-TABLE", cv, f"{name}: template and blank() are of the same kind", kind_t == kind_c, "", f"{src(v)}", node=v)
@@ -90,7 +135,7 @@ def purity(ctx: Ctx) -> None:
     loops = [lp for lp in for_loops(cv) if any(matches("$s.charts", n) and isinstance(n.value, ast.Name) and n.value.id == cv.param_names()[0] for n in ast.walk(lp.iter))]
     lp = one(loops, "loop over simfile.charts in _convert")
     ctx.expect("R-ORDER", cv, "the chart loop walks the source's whole chart list in order", matches("$s.charts", lp.iter), src(lp.iter), f"the loop iterates {src(lp.iter)}", node=lp)
-    chart_fresh = [n for n, v in fresh.items() if "chart" in ast.unparse(match("deepcopy($t) or $c.blank()", v)["c"])]
+    chart_fresh = [n for n, v in fresh.items() if "chart" in ast.unparse((match("deepcopy($t) or $c.blank()", v) or {"c": match("deepcopy($t) or $x", v)["x"]})["c"])]
     for n in chart_fresh:
         b = loc.b[n][0]
         if isinstance(b.value, ast.Name):
